@@ -74,6 +74,82 @@ def odd_timing_inserts(s, n_states):
     s.hist['odd_timing_cases'] = idx
 
 
+def judge_forced(s, ro_txt, msg_txt, cls_name):
+    """A message object built as class `cls_name` from a document (any document: the typed
+    constructors do not classify).  Only this is judged: if adding it raises, nothing changed."""
+    import warnings as W
+    from .. import events as EV
+    cls = getattr(s.mt, cls_name)
+    EV.STATE['quiet'] = EV.STATE.get('quiet', 0) + 1
+    try:
+        try:
+            m = cls.from_string(msg_txt)
+            ro = s.mt.RunningOrder.from_string(ro_txt)
+        except Exception:
+            return None
+        pre, pre_completed = str(ro), bool(ro.completed)
+        err = None
+        with W.catch_warnings():
+            W.simplefilter('ignore')
+            try:
+                ro + m
+            except Exception as e:
+                err = e
+        post, post_completed = str(ro), bool(ro.completed)
+    finally:
+        EV.STATE['quiet'] -= 1
+        EV.drain()
+    s.evaluations += 1
+    natural = None
+    try:
+        from xml.etree import ElementTree as ET
+        from ..spec import classify_doc
+        natural = classify_doc(ET.fromstring(msg_txt))
+    except Exception:
+        pass
+    s.note_sig(('forced', cls_name, natural == cls_name, type(err).__name__ if err else 'ok', pre == post))
+    s.hist['forced:%s' % ('raise' if err else 'ok')] += 1
+    if err is not None and (pre != post or pre_completed != post_completed):
+        s.custom_violation('raise-left-state-changed',
+                           {'built_as': cls_name, 'document_is': natural, 'exc': [c.__name__ for c in type(err).__mro__[:2]],
+                            'completed_before': pre_completed, 'completed_after': post_completed},
+                           {'type': 'forced', 'ro_txt': ro_txt, 'msg_txt': msg_txt, 'cls': cls_name},
+                           msg_kind=cls_name, status='built-as-another-class' if natural != cls_name else 'own-class')
+    return err
+
+
+MESSAGE_CLASSES = ('StorySend', 'StoryAppend', 'StoryDelete', 'StoryInsert', 'StoryMove', 'StoryReplace', 'ItemDelete',
+                   'ItemInsert', 'ItemMoveMultiple', 'ItemReplace', 'RunningOrderReplace', 'MetaDataReplace', 'ReadyToAir',
+                   'RunningOrderEnd', 'EAStoryReplace', 'EAItemReplace', 'EAStoryDelete', 'EAItemDelete', 'EAStoryInsert',
+                   'EAItemInsert', 'EAStorySwap', 'EAItemSwap', 'EAStoryMove', 'EAItemMove')
+
+
+def forced_types(s, n):
+    """Typed constructors over documents of every kind, with and without a dropped element."""
+    for i in range(n):
+        if not s.mine(i):
+            continue
+        rng = s.rng('forced', i)
+        pool = gen.text_pool('plain')
+        ro_txt = gen.rand_ro(rng, n_stories=rng.randint(1, 4), pool=pool, message_id=1)
+        kind = rng.choice(B.ALL_KINDS)
+        doc = gen.rand_message(rng, Abs(ro_txt), kind, 10, gen.Ids('T%d.' % i), pool=pool,
+                               shape_weights=(0.8, 0.1, 0.1, 0.0))
+        if rng.random() < 0.5:
+            doc = gen.drop_one_element(rng, doc)
+        for cls_name in rng.sample(MESSAGE_CLASSES, 6):
+            if hasattr(s.mt, cls_name):
+                judge_forced(s, ro_txt, doc, cls_name)
+
+
+def replay(s, data):
+    w = data['witness']
+    if w.get('type') == 'forced':
+        judge_forced(s, w['ro_txt'], w['msg_txt'], w['cls'])
+        return
+    K.replay_transition(s, data)
+
+
 def run(s):
     K.suite_workload(s)
     K.fixtures_workload(s)
@@ -98,9 +174,7 @@ def run(s):
            shape_weights=(0.9, 0.05, 0.05, 0.0), selfref=0.02, drop=0.6)
     collections(s, 80 if q else 6000)
     odd_timing_inserts(s, 3 if q else 60)
-
-
-replay = K.replay_transition
+    forced_types(s, 400 if q else 20000)
 
 
 def gates(agg, tier):
@@ -110,4 +184,5 @@ def gates(agg, tier):
         K.need(agg, r, any(("'%s'" % k) in sg and "'raise'" in sg for sg in agg['sigs']),
                'no raising %s observed' % k)
     K.need(agg, r, agg['hist'].get('outcome:raise:MosMergeError', 0) > 0, 'no MosMergeError observed')
+    K.need(agg, r, agg['hist'].get('forced:raise', 0) > 0, 'no raising add of a message built through a typed constructor observed')
     return r
